@@ -77,7 +77,9 @@ def run_perm(spec, opts, perm, cperm=None, wperm=None):
 
 def work_perms(chunk):
     col = engines.Collector()
-    for spec, opts in chunk:
+    for item in chunk:
+        spec, opts = item[0], item[1]
+        part = item[2] if len(item) > 2 else None  # (k, m): this work item takes every m-th permutation starting at k
         n = len(spec["tasks"])
         nc = len(spec.get("components", []))
         ident = tuple(range(n))
@@ -93,6 +95,8 @@ def work_perms(chunk):
         # a change that introduces one must not make results depend on them either)
         wperms = list(itertools.permutations(range(nw))) if 2 <= nw <= 3 else [None]
         combos = [(p_, c_, None) for p_ in itertools.permutations(range(n)) for c_ in cperms] + [(ident, cperms[0], w_) for w_ in wperms[1:]]
+        if part is not None:
+            combos = combos[part[0] :: part[1]]
         for perm, cperm, wperm in combos:
             if True:
                 if perm == ident and (cperm is None or cperm == tuple(range(nc))) and wperm is None:
@@ -114,6 +118,11 @@ def work_perms(chunk):
         if len(col.samples) < 2 and spec.get("links"):
             col.samples.append({"spec": spec, "opts": opts, "permutations_run": "all %d! task hash-rank orders" % n})
     return col
+
+
+def _has_calendars(spec):
+    res = [w for tm in spec.get("teams", []) for w in tm.get("workers", [])] + [f for wp in spec.get("workplaces", []) for f in wp.get("facilities", [])]
+    return any(r.get("absence") or r.get("absence_after") for r in res)
 
 
 def _strip_prefix(d, L):
@@ -199,8 +208,8 @@ def work_hist(chunk):
         ref_d = json.loads(d1)
         for k in (1, 2, 3):
             for keep_logs in (False, True):
-                if keep_logs and opts.get("absence"):
-                    continue
+                if keep_logs and (opts.get("absence") or _has_calendars(spec)):
+                    continue  # (with absence lists, which name absolute times, the appended life cycle is not a shifted copy)
                 mo = runner.prepare(spec, opts)
                 try:
                     mo.project.simulate(**dict(runner.sim_kwargs(opts), max_time=k))
@@ -422,6 +431,15 @@ def perm_items(tier):
     # five tasks: a tail with two inputs of different kinds in one layer beside an independent chain, fewer workers than READY tasks (all 5! orders)
     for sp in F.five_task_join_specs()[:: (2 if tier == "quick" else 1)]:
         out.append((sp, {"rule": "TSLACK", "max_time": F.seq_bound(sp) + 6}))
+    # eight tasks, FS only: a node with two routes of different length to the tail, two more levels upstream, a competitor chain and a loose task (all 8! orders)
+    for wv in (((2, 2, 2, 2, 2, 5, 2, 1),) if tier == "quick" else ((2, 2, 2, 2, 2, 5, 2, 1), (1, 2, 1, 3, 1, 4, 3, 2))):
+        fl = {"tasks": [{"name": F.tname(i), "work": float(w)} for i, w in enumerate(wv)], "links": [[0, 1, "FS"], [1, 2, "FS"], [2, 3, "FS"], [3, 4, "FS"], [2, 4, "FS"], [5, 6, "FS"]]}
+        out += [(F.with_teams(fl, "POOL1"), {"rule": "TSLACK", "max_time": 40}, (k, 32)) for k in range(32)]
+    # cost rates that do not add up associatively (0.1 + 0.2 + 0.3), three workers of one team busy in the same step (all orders of tasks and of workers)
+    fl = {"tasks": [{"name": F.tname(i), "work": 2.0} for i in range(3)], "links": []}
+    sp = F.with_teams(fl, "POOL3")
+    sp = dict(sp, teams=[dict(tm, workers=[dict(w, cost=c) for w, c in zip(tm["workers"], (0.1, 0.2, 0.3))]) for tm in sp["teams"]])
+    out.append((sp, {"rule": "TSLACK", "max_time": 12}))
     # components (sets of components are iterated in check_removing_placed_workplace)
     for sp in list(F.fac_specs("quick"))[:: (4 if tier == "quick" else 1)]:
         if len(sp.get("components", [])) <= 3:
@@ -460,7 +478,7 @@ if sys.argv[1] == 'rev':
     order.reverse()
 out = {}
 for i in order:
-    spec, opts = items[i]
+    spec, opts = items[i][0], items[i][1]
     ex = runner.run(spec, dict(opts, phases=()))
     out[i] = hashlib.sha256((c09.jdump(ex.m) if ex.error is None else 'ERR:' + ex.error).encode()).hexdigest()
 print(json.dumps(out))
@@ -537,7 +555,7 @@ from mc.props import c09
 from mc import runner
 h = hashlib.sha256()
 n = 0
-for spec, opts in c09.perm_items('quick')[::7]:
+for spec, opts in [(it[0], it[1]) for it in c09.perm_items('quick')[::7]]:
     ex = runner.run(spec, dict(opts, plain=True, phases=()))
     h.update(c09.jdump(ex.m).encode()); n += 1
 print(n, h.hexdigest())
